@@ -33,7 +33,7 @@ var (
 	ErrInjected = errors.New("injected I/O error (vos)")
 )
 
-// Crash is the panic value that ends the crashed process.
+// Crash was the panic value of earlier versions; crashes are now fail-stop (see mut).
 type Crash struct{ At int }
 
 type node struct {
@@ -139,8 +139,11 @@ func (s *State) mut(op, p string) (ok bool, partial bool) {
 		if (op == "write" || op == "writefile") && s.tear >= 0 {
 			return true, true
 		}
+		// the process "dies" here: from now on every primitive fails without effect, so
+		// the durable state is exactly the state at this point (no panic: a panic would
+		// run deferred code of the dying process, which a real crash never does)
 		s.Crashed = true
-		panic(Crash{At: s.Ops})
+		return false, false
 	}
 	s.Ops++
 	s.Log = append(s.Log, op+" "+p)
@@ -149,7 +152,6 @@ func (s *State) mut(op, p string) (ok bool, partial bool) {
 
 func (s *State) crashNow() {
 	s.Crashed = true
-	panic(Crash{At: s.Ops})
 }
 
 func pathErr(op, p string, err error) error { return &fs.PathError{Op: op, Path: p, Err: err} }
@@ -302,6 +304,7 @@ func WriteFile(name string, data []byte, perm fs.FileMode) error {
 		}
 		S.nodes[p] = &node{data: append([]byte{}, data[:k]...), mtime: vclock.Now()}
 		S.crashNow()
+		return pathErr("write", p, ErrCrashed)
 	}
 	S.nodes[p] = &node{data: append([]byte{}, data...), mtime: vclock.Now()}
 	return nil
@@ -516,6 +519,7 @@ func (f *File) Write(b []byte) (int, error) {
 		}
 		f.put(b[:k])
 		S.crashNow()
+		return k, pathErr("write", f.name, ErrCrashed)
 	}
 	f.put(b)
 	return len(b), nil
